@@ -780,6 +780,8 @@ type modelParams struct {
 	AlignV20Dev int `json:"align_v20dev"`
 	// AlignV202: 1 + the wanted value of V202EnhanceActivation % 144 (0 = leave as drawn)
 	AlignV202 int `json:"align_v202"`
+	// Liveness: only bounded progress is judged (C08 runs the model workloads as a liveness monitor)
+	Liveness bool `json:"liveness"`
 }
 
 func init() {
@@ -914,9 +916,15 @@ func modelRun(j *orch.Job, r *orch.Result) error {
 	r.Seen("v20dev_alignment", fmt.Sprint(e.V20Dev%144))
 	r.Seen("v202_alignment", fmt.Sprint(e.V202%144))
 	for _, mm := range mon.Mism {
+		if p.Liveness {
+			break
+		}
 		for _, pr := range mm.Props {
 			r.Violate(pr, mm.Sig, mm.Detail, mm.Case)
 		}
+	}
+	if s, serr := n.Synced(); serr == nil && s > e.Pegnet {
+		r.Count("blocks_applied", int64(s-e.Pegnet))
 	}
 	if err != nil && errors.Is(err, harness.ErrWedged) && containsStr(p.Features, "align") {
 		s, _ := n.Synced()
@@ -925,6 +933,18 @@ func modelRun(j *orch.Job, r *orch.Result) error {
 				map[string]interface{}{"eras": e, "height": s + 1})
 			return nil
 		}
+	}
+	if err != nil && p.Liveness && (errors.Is(err, harness.ErrWedged) || errors.Is(err, harness.ErrFatal)) {
+		s, _ := n.Synced()
+		how := "wedge"
+		if errors.Is(err, harness.ErrFatal) {
+			how = "fatal"
+		}
+		le := harness.LastDaemonError()
+		r.Violate("C08", fmt.Sprintf("%s kind=model-workload err=%s", how, normalizeErr(le)),
+			fmt.Sprintf("block %d of a chain of well-formed and rule-breaking third-party traffic (workload features %v) cannot be applied: %v\nlast daemon error: %s", s+1, p.Features, err, le),
+			map[string]interface{}{"eras": e, "height": s + 1, "seed": p.Seed, "features": p.Features, "daemon_error": le})
+		return nil
 	}
 	if err != nil {
 		if errors.Is(err, harness.ErrWedged) {
